@@ -71,11 +71,22 @@ var entries = []entry{
 	{"onevalue", func(css string, skipC, _ bool) sx.X {
 		return sx.L(sx.A("ok"), TokX(parser.ParseOneComponentValue(parser.Tokenize([]byte(css), skipC))))
 	}},
+	// An+B (css-syntax-3 section 6) on tokens without comments, as the selector parser calls it
+	{"nth", func(css string, _, _ bool) sx.X {
+		r := parser.ParseNth(parser.Tokenize([]byte(css), true))
+		if r == nil {
+			return sx.L(sx.A("ok"), sx.A("nil"))
+		}
+		return sx.L(sx.A("ok"), sx.I(r[0]), sx.I(r[1]))
+	}},
 }
 
 func request(e entry, q int, skipC, skipW bool, css string) sx.X {
 	if e.name == "tok" {
 		return sx.L(sx.A("tok"), sx.I(q), sx.B(skipC), sx.S(css))
+	}
+	if e.name == "nth" {
+		return sx.L(sx.A("nth"), sx.S(css))
 	}
 	return sx.L(sx.A("parse"), sx.A(e.name), sx.I(q), sx.B(skipC), sx.B(skipW), sx.S(css))
 }
@@ -86,6 +97,8 @@ type runner struct {
 	seenJudge map[string]int
 }
 
+var longDigits = regexp.MustCompile(`[0-9]{8}`)
+
 var posRe = regexp.MustCompile(`\((ws|comment|ident|at|hash|str|url|lit|ur|num|pct|dim|paren|square|curly|fn|err|qrule|atrule|decl) \d+ \d+`)
 
 // stripPos removes the line/column pairs from a canonical form (to tell what kind of difference it is).
@@ -93,6 +106,12 @@ func stripPos(s string) string { return posRe.ReplaceAllString(s, "($1") }
 
 // one evaluates one input on one entry point.
 func (rn *runner) one(e entry, css string, skipC, skipW bool, kind string, seed uint64) error {
+	if e.name == "nth" && longDigits.MatchString(css) {
+		// Number.Int() goes through the float32 value of the token: integers of 8 and more digits are
+		// not exact there (assumption of the An+B comparison, see obligations)
+		rn.out.Hit("skipped:anb-integer-beyond-float32-exactness")
+		return nil
+	}
 	var impl sx.X
 	o := render.Guard(5*time.Second, func() { impl = e.run(css, skipC, skipW) })
 	if o.Timeout {
@@ -193,6 +212,10 @@ var EdgeCases = []string{
 	"\"abc", "'a\\", "'a\\\nb'", "\"a\nb\"c", "5/**/%", "1\\45 3", "1e", "1e-", "1e+", "1e3", "+.5e-2x", ".", "+", "+a", "1.", "1.e3", "-.5", "-5e", "--5", "-->", "<!--", "<!-",
 	"U+", "u+a", "U+??????", "U+0000000", "u+1-", "u+1-g", "U+1?-2", "#", "#1", "#a", "#-1", "#--", "#\\\n", "@", "@1", "@--", "@\\", "a(", "a(b", "a(b))", "{]}", "[)]", "(}",
 	"a:b!important", "a:b ! important ;c : d", "a:b !important x", "a{b:c}", "@m x{y}z{w}", "@i u;a{}", "a;b{}", "a:b{c}d;e:f", "{}", "a:{}", "a: b {} c", "x\x00y", "a\r\nb\rc\fd",
+	"\\41  b", "\\41 \n b", "\\41\t\tb", "'\\41  b'", "\"x\\a  y\"", "url(\\41  b)", "url(a\\41  )", "url(\\41 \n)", "#\\31  a", "1\\65  x", "@\\41  b",
+	"color: red !important /* why */", "color: red !important/**/;a:b", "color:red !/**/important", "color:red ! /* x */ important /* y */ ;", "--x:/* c */{a:b}", "--x: /* c */ {a:b} ;y:z", "a /* c */ : /* d */ b /* e */ ! /* f */ important",
+	"a:b !important /* c */ x", "/* c */ a:b", "a/**/{b:c}", "@m /* c */ x /* d */ {y} /* e */ z{w}",
+	"2n + +1", "n - -0", "2n+ 1", "2n +1", "2n + 1", "2n- 1", "2n -1", "2n - 1", "+n", "+ n", "-n- 1", "-n -1", "n-1", "n -1", "n- 1", "+n-1", "3 n", "3n+-1", "n+ +1", "n -+1", "-n+0", "N-  2", "even", " OdD ", "+even", "-odd", "2e0n", "2.0n", "n+1.0", "5", "+5", "- 5", "n\\2d 1", "\\6e +1", "2n/**/+/**/1", "+/**/n",
 	"a\n\n  b", "a \n \n\tb{c\n\n:d}", "/*1\n2\n3*/x y", "'a\\\n\\\nb' c", "a\r\n\r\nb", "a\n/*\n\n*/\n b", "{ a: b } color: red; width: 1px", "{} a:b; c:d", "x{y}z:w;u:v",
 	"9223372036854775807 9223372036854775808 -9223372036854775808 -9223372036854775809", "\\0 \\110000 \\d800 \\10ffff x",
 }
@@ -309,8 +332,11 @@ func Run(tier string, seed uint64, modelPath, repo string, out *res.Result) erro
 	all := func(css, kind string, sub *rng.R) error {
 		// every entry point on corpus/edge inputs
 		for _, e := range entries {
-			if err := rn.one(e, css, sub.Bool(), sub.Bool(), kind, sub.Seed()); err != nil {
-				return err
+			skipW := sub.Bool()
+			for _, skipC := range []bool{false, true} {
+				if err := rn.one(e, css, skipC, skipW, kind, sub.Seed()); err != nil {
+					return err
+				}
 			}
 		}
 		return nil
@@ -320,7 +346,7 @@ func Run(tier string, seed uint64, modelPath, repo string, out *res.Result) erro
 			return err
 		}
 		// the entry point the text was generated for, plus a random one
-		for _, i := range []int{shape, 1 + sub.Intn(len(entries)-1)} {
+		for _, i := range []int{shape, 1 + sub.Intn(len(entries)-2)} {
 			if err := rn.one(entries[i], css, sub.Bool(), sub.Bool(), kind, sub.Seed()); err != nil {
 				return err
 			}
@@ -396,11 +422,19 @@ func Run(tier string, seed uint64, modelPath, repo string, out *res.Result) erro
 			}
 		}
 	}
+	nthEntry := entries[len(entries)-1]
+	for i := 0; i < nGen/2; i++ {
+		sub := r.Sub()
+		g := &G{R: sub}
+		if err := rn.one(nthEntry, g.Nth(), true, false, "generated-anb", sub.Seed()); err != nil {
+			return err
+		}
+	}
 	for i := 0; i < nMut && len(pool) > 0; i++ {
 		sub := r.Sub()
 		g := &G{R: sub}
 		css := g.Mutate(pool[sub.Intn(len(pool))], sub.Range(1, 3))
-		if err := some(css, "mutated", 1+sub.Intn(len(entries)-1), sub); err != nil {
+		if err := some(css, "mutated", 1+sub.Intn(len(entries)-2), sub); err != nil {
 			return err
 		}
 	}
